@@ -28,6 +28,10 @@ META = {
 
 
 def run(prog, report, tier):
+    # an entry must not depend on what was integrated before: the
+    # shared quadrature arrays are never written after construction
+    from .. import quadalg
+    quadalg.check_immutable_rules(prog, report)
     indexing.check_bilform_matrix(prog, report)
     effects.check_pools(prog, report)
     effects.check_samecall(prog, report)
